@@ -251,6 +251,7 @@ def render(spec):
     if kind == "func":
         w(deco_lines(0, ""))
         w("{} f(x, y):\n{}    LOG.append(('body', 'f', _same(x)))\n".format(adef, tick))
+        w("    if BODY['mode'] == 'recurse' and not CUR.get('rec'):\n        CUR['rec'] = True\n        {}f(x, y)\n".format("await " if spec["is_async"] else ""))
         w("    if BODY['mut'] == 'rebind':\n        x = [99]\n")
         w("    return _finish_body(x)\n")
         return "".join(out)
@@ -283,6 +284,10 @@ def render(spec):
                 if spec["is_async"]:
                     w("        await Tick()\n")
                 w("        LOG.append(('body', '{}', _same(x)))\n".format(qn))
+                # body mode "recurse": the body calls the same callable once more (the inner call must be fully checked)
+                selfcall = {"method": "self.m(x, y)", "call": "self(x, y)", "static": "L{}.m(x, y)".format(li), "classm": "cls.m(x, y)"}[kind]
+                w("        if BODY['mode'] == 'recurse' and not CUR.get('rec'):\n            CUR['rec'] = True\n            {}{}\n".format(
+                    "await " if spec["is_async"] else "", selfcall))
                 w("        if BODY['mut'] == 'rebind':\n            x = [99]\n        return _finish_body(x)\n")
 
             if kind == "method" or kind == "call":
